@@ -1,5 +1,595 @@
-//! C04 — not built yet.
-#![allow(unused)]
+//! C04 — element-wise arithmetic, maps, reductions: case generation for the Coq correspondence and the
+//! failure-search oracle.
+#![allow(clippy::needless_range_loop)]
 use crate::util::*;
-pub fn gen(_tier: &str, _seed: u64, _outdir: &str) { eprintln!("C04: gen not implemented"); std::process::exit(3); }
-pub fn oracle(_tier: &str, _seed: u64) -> (u64, Vec<Finding>) { eprintln!("C04: oracle not implemented"); std::process::exit(3); }
+use compute::linalg::{dot, inf_norm, logmeanexp, logsumexp, norm, prod, sum, Matrix, Vector};
+use compute::statistics::max;
+
+// ---------------------------------------------------------------------------------------------
+// values
+const SPECIALS: [f64; 14] = [0.0, -0.0, f64::INFINITY, f64::NEG_INFINITY, f64::NAN, 5e-324, -5e-324, 2.2250738585072014e-308,
+    1.7976931348623157e308, -1.7976931348623157e308, 1.0, -1.0, 1e-300, 4.4501477170144023e-308];
+
+#[derive(Clone, Copy, PartialEq)]
+enum Mode { Reals, Special, Ints, Unit, Pos }
+
+fn val(r: &mut Rng, m: Mode) -> f64 {
+    match m {
+        Mode::Reals => { let e = r.range(-6, 6) as i32; r.uniform(-4.0, 4.0) * 2f64.powi(e) }
+        Mode::Special => if r.coin(0.3) { *r.pick(&SPECIALS) } else if r.coin(0.2) { f64::from_bits(r.next()) } else { r.uniform(-3.0, 3.0) },
+        Mode::Ints => r.small_int(9),
+        Mode::Unit => r.uniform(-1.0, 1.0),
+        Mode::Pos => r.uniform(0.01, 6.0),
+    }
+}
+fn vals(r: &mut Rng, n: usize, m: Mode) -> Vec<f64> { (0..n).map(|_| val(r, m)).collect() }
+fn has_special(v: &[f64]) -> bool { v.iter().any(|x| !x.is_finite() || *x == 0.0 || x.abs() < 2.3e-308) }
+fn nontrivial(n: usize, vs: &[&[f64]]) -> bool { (n >= 9 && n % 8 != 0) || vs.iter().any(|v| has_special(v)) }
+
+fn mat_out(m: &Matrix) -> Vec<f64> {
+    let mut v = vec![m.nrows as f64, m.ncols as f64];
+    v.extend_from_slice(&m.data);
+    v
+}
+fn mat_tm(r: usize, c: usize, d: &[f64]) -> Tm { app("mkmat", vec![Tm::Nat(r as u64), Tm::Nat(c as u64), fl(d)]) }
+fn raw(s: &str) -> Tm { Tm::Raw(s.into()) }
+/// a Matrix with the given fields, bypassing `Matrix::new` (the fields are public)
+fn mk(r: usize, c: usize, d: &[f64]) -> Matrix { Matrix { data: Vector::new(d.to_vec()), nrows: r, ncols: c } }
+
+macro_rules! binop { ($t:expr, $a:expr, $b:expr) => { match $t { 0 => $a + $b, 1 => $a - $b, 2 => $a * $b, _ => $a / $b } } }
+macro_rules! asgop { ($t:expr, $a:expr, $b:expr) => { match $t { 0 => $a += $b, 1 => $a -= $b, 2 => $a *= $b, _ => $a /= $b } } }
+
+const TRAITS: [&str; 4] = ["TAdd", "TSub", "TMul", "TDiv"];
+const ATRAITS: [&str; 4] = ["TAddAssign", "TSubAssign", "TMulAssign", "TDivAssign"];
+const TOKS: [&str; 4] = ["VAdd", "VSub", "VMul", "VDiv"];
+
+/// Vector op Vector, the four ownership forms
+fn vec_vec(t: usize, form: usize, a: &[f64], b: &[f64]) -> Result<Vec<f64>, String> {
+    let (x, y) = (Vector::new(a.to_vec()), Vector::new(b.to_vec()));
+    catch(move || { let r: Vector = match form { 0 => binop!(t, x, y), 1 => binop!(t, &x, &y), 2 => binop!(t, x, &y), _ => binop!(t, &x, y) }; r.v })
+}
+const VV_FORMS: [(&str, &str); 4] = [("TyVector", "TyVector"), ("TyRefVector", "TyRefVector"), ("TyVector", "TyRefVector"), ("TyRefVector", "TyVector")];
+/// Vector op= Vector: (owned, borrowed); the borrowed form also returns the borrowed operand afterwards
+fn vec_vec_assign(t: usize, form: usize, a: &[f64], b: &[f64]) -> Result<Vec<f64>, String> {
+    let (mut x, y) = (Vector::new(a.to_vec()), Vector::new(b.to_vec()));
+    catch(move || { if form == 0 { asgop!(t, x, y); x.v } else { asgop!(t, x, &y); let mut o = x.v; o.extend_from_slice(&y.v); o } })
+}
+/// Vector op f64 / f64 op Vector: forms (V,f) (&V,f) (f,V) (f,&V)
+fn vec_scalar(t: usize, form: usize, a: &[f64], s: f64) -> Result<Vec<f64>, String> {
+    let x = Vector::new(a.to_vec());
+    catch(move || { let r: Vector = match form { 0 => binop!(t, x, s), 1 => binop!(t, &x, s), 2 => binop!(t, s, x), _ => binop!(t, s, &x) }; r.v })
+}
+const VS_FORMS: [(&str, &str); 4] = [("TyVector", "TyF64"), ("TyRefVector", "TyF64"), ("TyF64", "TyVector"), ("TyF64", "TyRefVector")];
+fn vec_scalar_assign(t: usize, a: &[f64], s: f64) -> Result<Vec<f64>, String> {
+    let mut x = Vector::new(a.to_vec());
+    catch(move || { asgop!(t, x, s); x.v })
+}
+/// Matrix op f64 / f64 op Matrix: forms (M,f) (&M,f) (f,M) (f,&M)
+fn mat_scalar(t: usize, form: usize, m: &Matrix, s: f64) -> Result<Vec<f64>, String> {
+    let x = m.clone();
+    catch(move || { let r: Matrix = match form { 0 => binop!(t, x, s), 1 => binop!(t, &x, s), 2 => binop!(t, s, x), _ => binop!(t, s, &x) }; mat_out(&r) })
+}
+const MS_FORMS: [(&str, &str); 4] = [("TyMatrix", "TyF64"), ("TyRefMatrix", "TyF64"), ("TyF64", "TyMatrix"), ("TyF64", "TyRefMatrix")];
+fn mat_scalar_assign(t: usize, m: &Matrix, s: f64) -> Result<Vec<f64>, String> {
+    let mut x = m.clone();
+    catch(move || { asgop!(t, x, s); mat_out(&x) })
+}
+fn mat_mat_assign(t: usize, form: usize, m1: &Matrix, m2: &Matrix) -> Result<Vec<f64>, String> {
+    let (mut x, y) = (m1.clone(), m2.clone());
+    catch(move || { if form == 0 { asgop!(t, x, y); mat_out(&x) } else { asgop!(t, x, &y); let mut o = mat_out(&x); o.extend(mat_out(&y)); o } })
+}
+fn mat_mat(t: usize, form: usize, m1: &Matrix, m2: &Matrix) -> Result<Vec<f64>, String> {
+    let (x, y) = (m1.clone(), m2.clone());
+    catch(move || { let r: Matrix = match form { 0 => binop!(t, x, y), 1 => binop!(t, &x, &y), 2 => binop!(t, x, &y), _ => binop!(t, &x, y) }; mat_out(&r) })
+}
+
+// ---------------------------------------------------------------------------------------------
+// the 29 maps: Coq constructor, Vector method, Matrix method, scalar method, input mode, and the name under which
+// the SCALAR method's values enter the table the Coq model reads (None: the model computes the map with IEEE operations)
+type VM = fn(&Vector) -> Vector;
+type MM = fn(&Matrix) -> Matrix;
+type SM = fn(f64) -> f64;
+type MapRow = (&'static str, VM, MM, SM, Mode, Option<&'static str>);
+macro_rules! maps { ($(($c:literal, $m:ident, $mode:expr, $t:expr)),* $(,)?) => { [ $( ($c, (|v: &Vector| v.$m()) as VM, (|m: &Matrix| m.$m()) as MM, (|x: f64| x.$m()) as SM, $mode, $t) ),* ] } }
+fn all_maps() -> [MapRow; 29] {
+    maps![("ULn", ln, Mode::Pos, Some("Ln")), ("ULn1p", ln_1p, Mode::Pos, Some("Ln1p")), ("ULog10", log10, Mode::Pos, Some("Log10")), ("ULog2", log2, Mode::Pos, Some("Log2")),
+          ("UExp", exp, Mode::Reals, Some("Exp")), ("UExp2", exp2, Mode::Reals, Some("Exp2")), ("UExpm1", exp_m1, Mode::Reals, Some("Expm1")),
+          ("USin", sin, Mode::Reals, Some("Sin")), ("UCos", cos, Mode::Reals, Some("Cos")), ("UTan", tan, Mode::Reals, Some("Tan")),
+          ("USinh", sinh, Mode::Reals, Some("Sinh")), ("UCosh", cosh, Mode::Reals, Some("Cosh")), ("UTanh", tanh, Mode::Reals, Some("Tanh")),
+          ("UAsin", asin, Mode::Unit, Some("Asin")), ("UAcos", acos, Mode::Unit, Some("Acos")), ("UAtan", atan, Mode::Reals, Some("Atan")),
+          ("UAsinh", asinh, Mode::Reals, Some("Asinh")), ("UAcosh", acosh, Mode::Pos, Some("Acosh")), ("UAtanh", atanh, Mode::Unit, Some("Atanh")),
+          ("USqrt", sqrt, Mode::Pos, None), ("UCbrt", cbrt, Mode::Reals, Some("Cbrt")), ("UAbs", abs, Mode::Reals, None),
+          ("UFloor", floor, Mode::Reals, Some("Floor")), ("UCeil", ceil, Mode::Reals, Some("Ceil")),
+          ("UToRadians", to_radians, Mode::Reals, None), ("UToDegrees", to_degrees, Mode::Reals, None),
+          ("URecip", recip, Mode::Reals, None), ("URound", round, Mode::Reals, Some("Round")), ("USignum", signum, Mode::Reals, None)]
+}
+/// the table of the SCALAR f64 method on the elements (the claim is kernel-vs-scalar): (name, x, x.method())
+fn scalar_table(f: SM, name: Option<&'static str>, v: &[f64]) -> crate::libm::Table {
+    let mut t = crate::libm::Table::default();
+    if let Some(nm) = name {
+        for x in v {
+            let x = std::hint::black_box(*x);
+            if !t.t1.iter().any(|e| e.1.to_bits() == x.to_bits() || (e.1.is_nan() && x.is_nan())) { t.t1.push((nm, x, std::hint::black_box(f(x)))); }
+        }
+    }
+    t
+}
+
+fn lengths(thorough: bool, dense_to: usize, r: &mut Rng) -> Vec<usize> {
+    let mut l: Vec<usize> = (0..=dense_to).collect();
+    for x in [24usize, 31, 32, 33, 39, 40] { if x > dense_to { l.push(x); } }
+    if thorough { for _ in 0..6 { l.push(41 + r.below(400) as usize); } }
+    l
+}
+/// shapes r x c with r*c = n (n >= 1): 1 x n, n x 1 and one proper factorisation when there is one
+fn shapes_of(n: usize) -> Vec<(usize, usize)> {
+    let mut s = vec![(1, n)];
+    if n > 1 { s.push((n, 1)); }
+    for d in 2..n { if n % d == 0 { s.push((d, n / d)); break; } }
+    s
+}
+
+const REDS: [&str; 6] = ["RSum", "RProd", "RNorm", "RMax", "RLogsumexp", "RLogmeanexp"];
+fn run_red(k: usize, form: usize, v: &[f64]) -> Result<Vec<f64>, String> {
+    let x = v.to_vec();
+    catch(move || vec![match form {
+        0 => match k { 0 => sum(&x), 1 => prod(&x), 2 => norm(&x), 3 => max(&x), 4 => logsumexp(&x), _ => logmeanexp(&x) },
+        1 => { let w = Vector::new(x); match k { 0 => w.sum(), 1 => w.prod(), 2 => w.norm(), 3 => w.max(), 4 => w.logsumexp(), _ => w.logmeanexp() } }
+        _ => { let n = x.len(); let w = mk(1, n, &x); match k { 0 => w.sum(), 1 => w.prod(), 2 => w.norm(), _ => w.max() } }
+    }])
+}
+
+fn lq(q: &mut Vec<(Tm, String)>, t: Tm, tag: &str, _nt: bool) { q.push((t, tag.to_string())); }
+fn spread(cs: &mut Cases, q: &mut Vec<(Tm, String)>, tick: &mut usize) { *tick += 1; if *tick % 12 == 0 { if let Some((t, tag)) = q.pop() { cs.push(t, &tag, true); } } }
+
+pub fn gen(tier: &str, seed: u64, outdir: &str) {
+    let mut r = Rng::new(seed);
+    let mut cs = Cases::new("C04");
+    let thorough = tier == "thorough";
+    let modes = [Mode::Reals, Mode::Special, Mode::Ints];
+
+    let mut long: Vec<(Tm, String)> = vec![];
+    let maps = all_maps();
+    // 0. long vectors (thorough): random lengths up to 1e4 through a sample of forms; queued and spread over the shards
+    if thorough {
+        for it in 0..60 {
+            let n = 41 + r.below(if it % 12 == 0 { 10_000 } else { 900 }) as usize;
+            let t = it % 4;
+            let (a, b) = (vals(&mut r, n, Mode::Reals), vals(&mut r, n, Mode::Reals));
+            let s = val(&mut r, Mode::Reals);
+            let f = r.below(4) as usize;
+            let res = vec_vec(t, f, &a, &b);
+            lq(&mut long, app("CVecOp", vec![raw(TRAITS[t]), raw(VV_FORMS[f].0), raw(VV_FORMS[f].1), app("OVec", vec![fl(&a)]), app("OVec", vec![fl(&b)]), outcome_list(&res)]), "long/vec-op-vec", true);
+            let res = vec_scalar(t, f, &a, s);
+            let (sf, of) = if f < 2 { (app("OVec", vec![fl(&a)]), app("OSc", vec![Tm::F(s)])) } else { (app("OSc", vec![Tm::F(s)]), app("OVec", vec![fl(&a)])) };
+            lq(&mut long, app("CVecOp", vec![raw(TRAITS[t]), raw(VS_FORMS[f].0), raw(VS_FORMS[f].1), sf, of, outcome_list(&res)]), "long/vec-scalar", true);
+            let x = Vector::new(a.clone());
+            let e = *r.pick(&[2, 3, 4, -1]);
+            let res = catch(move || x.powi(e).v);
+            lq(&mut long, app("CVecPowi", vec![fl(&a), Tm::Z(e as i64), outcome_list(&res)]), "long/powi", true);
+            let res = run_red(0, 0, &a);
+            lq(&mut long, app("CRed", vec![raw("RSum"), Tm::Nat(0), fl(&a), libm_table(&crate::libm::Table::default()), outcome_list(&res)]), "long/sum", true);
+            let (x, y) = (a.clone(), b.clone());
+            let res = catch(move || vec![dot(&x, &y)]);
+            lq(&mut long, app("CDot", vec![fl(&a), fl(&b), outcome_list(&res)]), "long/dot", true);
+            if n <= 1500 {
+                let (name, vm, _, sm, mode, tn) = maps[it % 29];
+                let a = vals(&mut r, n, mode);
+                let tb = scalar_table(sm, tn, &a);
+                let x = Vector::new(a.clone());
+                let res = catch(|| vm(&x).v);
+                lq(&mut long, app("CVecMap", vec![raw(name), fl(&a), libm_table(&tb), outcome_list(&res)]), "long/map", true);
+            }
+        }
+    }
+    let mut tick = 0usize;
+    // 1. Vector operator rows: every length 0..=40 x 4 operators x every form (thorough: once per value mode)
+    let reps = if thorough { 3 } else { 1 };
+    for rep in 0..reps { for &n in &lengths(thorough, 40, &mut r) { for t in 0..4 {
+        spread(&mut cs, &mut long, &mut tick);
+        let md = modes[(n + t + rep) % 3];
+        let (a, b) = (vals(&mut r, n, md), vals(&mut r, n, md));
+        let s = val(&mut r, md);
+        let nt = nontrivial(n, &[&a, &b]);
+        for f in 0..4 {
+            let res = vec_vec(t, f, &a, &b);
+            cs.push(app("CVecOp", vec![raw(TRAITS[t]), raw(VV_FORMS[f].0), raw(VV_FORMS[f].1), app("OVec", vec![fl(&a)]), app("OVec", vec![fl(&b)]), outcome_list(&res)]), "vec-op-vec", nt);
+            let res = vec_scalar(t, f, &a, s);
+            let (sf, of) = if f < 2 { (app("OVec", vec![fl(&a)]), app("OSc", vec![Tm::F(s)])) } else { (app("OSc", vec![Tm::F(s)]), app("OVec", vec![fl(&a)])) };
+            cs.push(app("CVecOp", vec![raw(TRAITS[t]), raw(VS_FORMS[f].0), raw(VS_FORMS[f].1), sf, of, outcome_list(&res)]), if f < 2 { "vec-op-scalar" } else { "scalar-op-vec" }, nt);
+        }
+        for f in 0..2 {
+            let res = vec_vec_assign(t, f, &a, &b);
+            cs.push(app("CVecOp", vec![raw(ATRAITS[t]), raw("TyVector"), raw(if f == 0 { "TyVector" } else { "TyRefVector" }), app("OVec", vec![fl(&a)]), app("OVec", vec![fl(&b)]), outcome_list(&res)]), "vec-assign-vec", nt);
+        }
+        let res = vec_scalar_assign(t, &a, s);
+        cs.push(app("CVecOp", vec![raw(ATRAITS[t]), raw("TyVector"), raw("TyF64"), app("OVec", vec![fl(&a)]), app("OSc", vec![Tm::F(s)]), outcome_list(&res)]), "vec-assign-scalar", nt);
+        // length mismatch: must panic
+        if n % 3 == 0 || thorough {
+            let k = n + 1 + r.below(9) as usize; let b2 = vals(&mut r, k, Mode::Ints);
+            let (a2, b2) = if r.coin(0.5) { (a.clone(), b2) } else { (b2, a.clone()) };
+            let f = r.below(4) as usize;
+            let res = vec_vec(t, f, &a2, &b2);
+            cs.push(app("CVecOp", vec![raw(TRAITS[t]), raw(VV_FORMS[f].0), raw(VV_FORMS[f].1), app("OVec", vec![fl(&a2)]), app("OVec", vec![fl(&b2)]), outcome_list(&res)]), "malformed/vec-length-mismatch", res.is_err());
+            let f = r.below(2) as usize;
+            let res = vec_vec_assign(t, f, &a2, &b2);
+            cs.push(app("CVecOp", vec![raw(ATRAITS[t]), raw("TyVector"), raw(if f == 0 { "TyVector" } else { "TyRefVector" }), app("OVec", vec![fl(&a2)]), app("OVec", vec![fl(&b2)]), outcome_list(&res)]), "malformed/vec-length-mismatch", res.is_err());
+        }
+    }}}
+    // 2. Matrix rows: sizes 1..=40 (every residue), a few shapes per size
+    let msizes: Vec<usize> = if thorough { (1..=40).collect() } else { (1..=18).chain([24, 31, 32, 33, 40]).collect() };
+    for rep in 0..reps { for &n in &msizes { for (si, &(rr, cc)) in shapes_of(n).iter().enumerate() { for t in 0..4 {
+        if !thorough && si > 0 && (n + t) % 2 == 0 { continue; }
+        spread(&mut cs, &mut long, &mut tick);
+        let md = modes[(n + t + si + rep) % 3];
+        let (a, b) = (vals(&mut r, n, md), vals(&mut r, n, md));
+        let s = val(&mut r, md);
+        let nt = nontrivial(n, &[&a, &b]);
+        let (m1, m2) = (mk(rr, cc, &a), mk(rr, cc, &b));
+        for f in 0..4 {
+            let res = mat_scalar(t, f, &m1, s);
+            let (sf, of) = if f < 2 { (app("MMat", vec![mat_tm(rr, cc, &a)]), app("MSc", vec![Tm::F(s)])) } else { (app("MSc", vec![Tm::F(s)]), app("MMat", vec![mat_tm(rr, cc, &a)])) };
+            cs.push(app("CMatOp", vec![raw(TRAITS[t]), raw(MS_FORMS[f].0), raw(MS_FORMS[f].1), sf, of, outcome_list(&res)]), if f < 2 { "mat-op-scalar" } else { "scalar-op-mat" }, nt);
+            let res = mat_mat(t, f, &m1, &m2);
+            cs.push(app("CMatBin", vec![raw(TOKS[t]), Tm::Nat(f as u64), mat_tm(rr, cc, &a), mat_tm(rr, cc, &b), outcome_list(&res)]), "mat-op-mat", nt);
+        }
+        for f in 0..2 {
+            let res = mat_mat_assign(t, f, &m1, &m2);
+            cs.push(app("CMatOp", vec![raw(ATRAITS[t]), raw("TyMatrix"), raw(if f == 0 { "TyMatrix" } else { "TyRefMatrix" }), app("MMat", vec![mat_tm(rr, cc, &a)]), app("MMat", vec![mat_tm(rr, cc, &b)]), outcome_list(&res)]), "mat-assign-mat", nt);
+        }
+        let res = mat_scalar_assign(t, &m1, s);
+        cs.push(app("CMatOp", vec![raw(ATRAITS[t]), raw("TyMatrix"), raw("TyF64"), app("MMat", vec![mat_tm(rr, cc, &a)]), app("MSc", vec![Tm::F(s)]), outcome_list(&res)]), "mat-assign-scalar", nt);
+        // shape mismatch: same size but transposed shape (assign must panic; Matrix op Matrix broadcasts or panics), or another size
+        if (rr != cc && (n % 2 == 0 || thorough)) || n % 5 == 0 {
+            let (r2, c2, b2) = if rr != cc && r.coin(0.6) { (cc, rr, b.clone()) } else { let k = n + 1 + r.below(4) as usize; (1, k, vals(&mut r, k, Mode::Ints)) };
+            let m3 = mk(r2, c2, &b2);
+            let f = r.below(2) as usize;
+            let res = mat_mat_assign(t, f, &m1, &m3);
+            cs.push(app("CMatOp", vec![raw(ATRAITS[t]), raw("TyMatrix"), raw(if f == 0 { "TyMatrix" } else { "TyRefMatrix" }), app("MMat", vec![mat_tm(rr, cc, &a)]), app("MMat", vec![mat_tm(r2, c2, &b2)]), outcome_list(&res)]), "malformed/mat-shape-mismatch", res.is_err());
+            let f = r.below(4) as usize;
+            let res = mat_mat(t, f, &m1, &m3);
+            cs.push(app("CMatBin", vec![raw(TOKS[t]), Tm::Nat(f as u64), mat_tm(rr, cc, &a), mat_tm(r2, c2, &b2), outcome_list(&res)]), "malformed/mat-shape-mismatch", res.is_err());
+        }
+    }}}}
+    // 2b. the empty Matrix (0 x 0, as built by Matrix::empty()): every form
+    for t in 0..4 {
+        let e: Vec<f64> = vec![];
+        let (m1, m2) = (mk(0, 0, &e), mk(0, 0, &e));
+        for f in 0..4 {
+            let res = mat_scalar(t, f, &m1, 2.0);
+            let (sf, of) = if f < 2 { (app("MMat", vec![mat_tm(0, 0, &e)]), app("MSc", vec![Tm::F(2.0)])) } else { (app("MSc", vec![Tm::F(2.0)]), app("MMat", vec![mat_tm(0, 0, &e)])) };
+            cs.push(app("CMatOp", vec![raw(TRAITS[t]), raw(MS_FORMS[f].0), raw(MS_FORMS[f].1), sf, of, outcome_list(&res)]), "empty-matrix", true);
+            let res = mat_mat(t, f, &m1, &m2);
+            cs.push(app("CMatBin", vec![raw(TOKS[t]), Tm::Nat(f as u64), mat_tm(0, 0, &e), mat_tm(0, 0, &e), outcome_list(&res)]), "empty-matrix", true);
+        }
+        for f in 0..2 {
+            let res = mat_mat_assign(t, f, &m1, &m2);
+            cs.push(app("CMatOp", vec![raw(ATRAITS[t]), raw("TyMatrix"), raw(if f == 0 { "TyMatrix" } else { "TyRefMatrix" }), app("MMat", vec![mat_tm(0, 0, &e)]), app("MMat", vec![mat_tm(0, 0, &e)]), outcome_list(&res)]), "empty-matrix", true);
+        }
+        let res = mat_scalar_assign(t, &m1, 2.0);
+        cs.push(app("CMatOp", vec![raw(ATRAITS[t]), raw("TyMatrix"), raw("TyF64"), app("MMat", vec![mat_tm(0, 0, &e)]), app("MSc", vec![Tm::F(2.0)]), outcome_list(&res)]), "empty-matrix", true);
+    }
+    { let e: Vec<f64> = vec![];
+      let m = mk(0, 0, &e); let res = catch(move || mat_out(&(-m)));
+      cs.push(app("CMatNeg", vec![mat_tm(0, 0, &e), outcome_list(&res)]), "empty-matrix", true);
+      let m = mk(0, 0, &e); let res = catch(move || mat_out(&m.abs()));
+      cs.push(app("CMatMap", vec![raw("UAbs"), mat_tm(0, 0, &e), libm_table(&crate::libm::Table::default()), outcome_list(&res)]), "empty-matrix", true);
+      let m = mk(0, 0, &e); let res = catch(move || mat_out(&m.powi(2)));
+      cs.push(app("CMatPowi", vec![mat_tm(0, 0, &e), Tm::Z(2), outcome_list(&res)]), "empty-matrix", true); }
+    // 3. negation
+    for &n in &lengths(thorough, 17, &mut r) {
+        let a = vals(&mut r, n, Mode::Special);
+        let x = Vector::new(a.clone());
+        let res = catch(move || (-x).v);
+        cs.push(app("CVecNeg", vec![fl(&a), outcome_list(&res)]), "neg/vector", nontrivial(n, &[&a]));
+        if n >= 1 { for &(rr, cc) in &shapes_of(n) {
+            let m = mk(rr, cc, &a);
+            let res = catch(move || mat_out(&(-m)));
+            cs.push(app("CMatNeg", vec![mat_tm(rr, cc, &a), outcome_list(&res)]), "neg/matrix", nontrivial(n, &[&a]));
+        }}
+    }
+    // 4. the 29 maps x Vector / Matrix x lengths; elements in the map's domain, then special values
+    let dense = if thorough { 40 } else { 17 };
+    for (name, vm, mm, sm, mode, tn) in maps.iter() { for &n in &lengths(thorough, dense, &mut r) { for pass in 0..2 {
+        if pass == 1 && !(thorough || n % 4 == 1) { continue; }
+        spread(&mut cs, &mut long, &mut tick);
+        let a = vals(&mut r, n, if pass == 0 { *mode } else { Mode::Special });
+        let t = scalar_table(*sm, *tn, &a);
+        let nt = nontrivial(n, &[&a]);
+        let x = Vector::new(a.clone());
+        let res = catch(|| vm(&x).v);
+        cs.push(app("CVecMap", vec![raw(name), fl(&a), libm_table(&t), outcome_list(&res)]), &format!("map/{}", name), nt);
+        if n >= 1 && (thorough || pass == 0) {
+            let sh = shapes_of(n); let (rr, cc) = sh[sh.len() - 1];
+            let m = mk(rr, cc, &a);
+            let res = catch(|| mat_out(&mm(&m)));
+            cs.push(app("CMatMap", vec![raw(name), mat_tm(rr, cc, &a), libm_table(&t), outcome_list(&res)]), &format!("map/{}", name), nt);
+        }
+    }}}
+    // 5. powi (exponents -3..=5 and a few large ones) and powf
+    for &n in &lengths(thorough, if thorough { 40 } else { 19 }, &mut r) {
+        let mut exps: Vec<i32> = (-3..=5).collect();
+        exps.extend([7, 10, -8, 31, 64, i32::MAX, i32::MIN + 1]);
+        for &e in &exps {
+            if !thorough && !(2..=3).contains(&e) && (n as i32 + e).rem_euclid(3) != 0 { continue; }
+            let a = vals(&mut r, n, if (n as i32 + e) % 2 == 0 { Mode::Reals } else { Mode::Special });
+            let nt = nontrivial(n, &[&a]);
+            let x = Vector::new(a.clone());
+            let res = catch(move || x.powi(e).v);
+            cs.push(app("CVecPowi", vec![fl(&a), Tm::Z(e as i64), outcome_list(&res)]), &format!("powi/{}", if e == 2 || e == 3 { e.to_string() } else { "other".into() }), nt);
+            if n >= 1 && (thorough || e == 2 || e == 3) {
+                let sh = shapes_of(n); let (rr, cc) = sh[sh.len() - 1];
+                let m = mk(rr, cc, &a);
+                let res = catch(move || mat_out(&m.powi(e)));
+                cs.push(app("CMatPowi", vec![mat_tm(rr, cc, &a), Tm::Z(e as i64), outcome_list(&res)]), "powi/matrix", nt);
+            }
+        }
+        for &p in &[2.0, 3.0, 0.5, -1.5, 0.0, f64::NAN, 1e3] {
+            if !thorough && ((n as f64 + p * 2.0) as i64).rem_euclid(3) != 0 && p != 2.0 { continue; }
+            let a = vals(&mut r, n, if n % 2 == 0 { Mode::Pos } else { Mode::Special });
+            crate::libm::start();
+            for x in &a { std::hint::black_box(std::hint::black_box(*x).powf(std::hint::black_box(p))); }
+            let t = crate::libm::stop();
+            let x = Vector::new(a.clone());
+            let res = catch(move || x.powf(p).v);
+            cs.push(app("CVecPowf", vec![fl(&a), Tm::F(p), libm_table(&t), outcome_list(&res)]), "powf", nontrivial(n, &[&a]));
+            if n >= 1 && n % 3 == 0 {
+                let sh = shapes_of(n); let (rr, cc) = sh[sh.len() - 1];
+                let m = mk(rr, cc, &a);
+                let res = catch(move || mat_out(&m.powf(p)));
+                cs.push(app("CMatPowf", vec![mat_tm(rr, cc, &a), Tm::F(p), libm_table(&t), outcome_list(&res)]), "powf", nontrivial(n, &[&a]));
+            }
+        }
+    }
+    // 6. reductions
+    for &n in &lengths(thorough, 40, &mut r) { for k in 0..6 { for form in 0..3 {
+        if form == 2 && (k >= 4 || n == 0) { continue; }
+        if !thorough && form > 0 && (n + k) % 4 != 0 { continue; }
+        let md = if k >= 4 { if n % 3 == 0 { Mode::Special } else { Mode::Reals } } else { modes[(n + k + form) % 3] };
+        let mut a = vals(&mut r, n, md);
+        if k >= 4 && n % 3 == 1 { let sh = *r.pick(&[700.0, -700.0, 1e6, -1e300, 1.7e308]); for x in a.iter_mut() { *x += sh; } }
+        // the table of exp/ln as the implementation evaluates them is what the scalar path would evaluate too
+        crate::libm::start();
+        let res = run_red(k, form, &a);
+        let t = crate::libm::stop();
+        cs.push(app("CRed", vec![raw(REDS[k]), Tm::Nat(form as u64), fl(&a), libm_table(&t), outcome_list(&res)]), &format!("reduce/{}", REDS[k]), nontrivial(n, &[&a]));
+    }}
+        let md = modes[n % 3];
+        let (a, b) = (vals(&mut r, n, md), vals(&mut r, n, md));
+        let (x, y) = (a.clone(), b.clone());
+        let res = catch(move || vec![dot(&x, &y)]);
+        cs.push(app("CDot", vec![fl(&a), fl(&b), outcome_list(&res)]), "reduce/dot", nontrivial(n, &[&a, &b]));
+        if n % 4 == 0 {
+            let k = n + 1 + r.below(8) as usize; let b2 = vals(&mut r, k, Mode::Ints);
+            let (x, y) = (a.clone(), b2.clone());
+            let res = catch(move || vec![dot(&x, &y)]);
+            cs.push(app("CDot", vec![fl(&a), fl(&b2), outcome_list(&res)]), "malformed/dot-length-mismatch", res.is_err());
+        }
+    }
+    // 7. infinity norm: free function (any nrows, incl. 0 and non-divisors) and Matrix method
+    for &n in &lengths(thorough, 30, &mut r) {
+        let a = vals(&mut r, n, if n % 4 == 0 { Mode::Special } else { Mode::Reals });
+        let mut rows: Vec<usize> = if n >= 1 { shapes_of(n).iter().map(|s| s.0).collect() } else { vec![] };
+        rows.push(0); rows.push(n + 1); if n >= 3 { rows.push(n - 1); }
+        for nr in rows {
+            let x = a.clone();
+            let res = catch(move || vec![inf_norm(&x, nr)]);
+            cs.push(app("CInfNorm", vec![fl(&a), Tm::Nat(nr as u64), outcome_list(&res)]), if res.is_ok() { "reduce/inf_norm" } else { "malformed/inf_norm" }, n >= 2);
+        }
+        if n >= 1 { for &(rr, cc) in &shapes_of(n) {
+            let m = mk(rr, cc, &a);
+            let res = catch(move || vec![m.inf_norm()]);
+            cs.push(app("CMatInfNorm", vec![mat_tm(rr, cc, &a), outcome_list(&res)]), "reduce/Matrix::inf_norm", n >= 2);
+        }}
+    }
+    while let Some((t, tag)) = long.pop() { cs.push(t, &tag, true); }
+    cs.write(outdir, if thorough { 250 } else { 700 },
+             "every length 0..=40 x 4 operators x every Vector operator form (op, scalar-left, scalar-right, op-assign; owned and borrowed) and the Matrix forms on every size 1..=40 (quick: 1..=18 and 24,31,32,33,40) with several shapes; the 29 maps + powi (-3..=5 and extreme exponents) + powf on Vector and Matrix; reductions (free function, Vector method, Matrix method), dot, both infinity norms; malformed stream (length / shape mismatches, nrows = 0 or not dividing the length); value modes: reals over 12 binades, small integers, specials (+-0, +-inf, NaN, subnormals, extremes, random bit patterns); non-trivial = length >= 9 with a non-empty remainder (n mod 8 <> 0), or a special value present, or a panic (malformed stream); distinct by hash of the case term");
+}
+
+// ---------------------------------------------------------------------------------------------
+// failure-search oracle: the property's statement against the implementation only
+fn same(a: f64, b: f64) -> bool { a.to_bits() == b.to_bits() || (a.is_nan() && b.is_nan()) }
+fn same_vec(a: &[f64], b: &[f64]) -> bool { a.len() == b.len() && a.iter().zip(b).all(|(x, y)| same(*x, *y)) }
+fn sop(t: usize, x: f64, y: f64) -> f64 { match t { 0 => x + y, 1 => x - y, 2 => x * y, _ => x / y } }
+const OPN: [&str; 4] = ["add", "sub", "mul", "div"];
+
+/// error-free sum: (hi, lo) with hi + lo the exact sum accumulated in double-double
+fn dd_sum(xs: impl Iterator<Item = f64>) -> f64 {
+    let (mut hi, mut lo) = (0.0f64, 0.0f64);
+    for x in xs {
+        let s = hi + x; let bb = s - hi; let e = (hi - (s - bb)) + (x - bb);
+        hi = s; lo += e;
+    }
+    hi + lo
+}
+/// Dekker product error without fma
+fn two_prod(a: f64, b: f64) -> (f64, f64) {
+    let p = a * b;
+    let split = |x: f64| { let c = 134217729.0 * x; let h = c - (c - x); (h, x - h) };
+    let ((ah, al), (bh, bl)) = (split(a), split(b));
+    (p, ((ah * bh - p) + ah * bl + al * bh) + al * bl)
+}
+
+fn check_pos(out: &mut Vec<Finding>, class: &str, got: &Result<Vec<f64>, String>, want: &[f64], input: &str) {
+    match got {
+        Ok(g) => if !same_vec(g, want) {
+            let i = g.iter().zip(want).position(|(x, y)| !same(*x, *y));
+            out.push(Finding { class: class.into(), what: format!("result differs from the position-wise scalar operation (length {} vs {}, first differing position {:?}: got {:?}, scalar gives {:?})", g.len(), want.len(), i, i.map(|i| g[i]), i.map(|i| want[i])), input: input.into() });
+        },
+        Err(e) => out.push(Finding { class: format!("{}:panics", class), what: format!("panicked on valid operands: {}", e), input: input.into() }),
+    }
+}
+
+pub fn oracle(tier: &str, seed: u64) -> (u64, Vec<Finding>) {
+    let mut r = Rng::new(seed ^ 0xC04);
+    let mut out = vec![]; let mut tried = 0u64;
+    let iters = if tier == "thorough" { 6000 } else { 900 };
+    let maps = all_maps();
+    // --- the empty Matrix: the property includes empty operands; every form must return the empty result
+    { let e: Vec<f64> = vec![];
+      let m0 = mk(0, 0, &e);
+      let mut bad: Vec<String> = vec![];
+      crumb("empty matrix (0x0, Matrix::empty()) through every operator form");
+      for t in 0..4 {
+          for f in 0..4 {
+              tried += 2;
+              if mat_scalar(t, f, &m0, 2.0).is_err() { bad.push(format!("{} form {}", ["Matrix op f64", "&Matrix op f64", "f64 op Matrix", "f64 op &Matrix"][f], OPN[t])); }
+              if mat_mat(t, f, &m0, &m0).is_err() { bad.push(format!("Matrix {} Matrix (ownership form {})", OPN[t], f)); }
+          }
+          tried += 3;
+          if mat_mat_assign(t, 0, &m0, &m0).is_err() || mat_mat_assign(t, 1, &m0, &m0).is_err() { bad.push(format!("Matrix {}= Matrix", OPN[t])); }
+          if mat_scalar_assign(t, &m0, 2.0).is_err() { bad.push(format!("Matrix {}= f64", OPN[t])); }
+      }
+      tried += 3;
+      let m = m0.clone(); if catch(move || mat_out(&(-m))).is_err() { bad.push("-Matrix".into()); }
+      let m = m0.clone(); if catch(move || mat_out(&m.abs())).is_err() { bad.push("Matrix::abs (and the other maps)".into()); }
+      let m = m0.clone(); if catch(move || mat_out(&m.powi(2))).is_err() { bad.push("Matrix::powi".into()); }
+      if !bad.is_empty() {
+          out.push(Finding { class: "empty-matrix:value-form-panics".into(),
+              what: format!("{} operator/map forms panic on the empty 0x0 Matrix instead of returning the empty result (e.g. {}); the op-assign forms accept it", bad.len(), bad[..bad.len().min(4)].join("; ")),
+              input: "Matrix::empty() (nrows = 0, ncols = 0, no data), scalar 2.0".into() });
+      } }
+    for it in 0..iters {
+        let n = if it < 82 { it / 2 } else if it % 50 == 0 { 41 + r.below(10_000) as usize } else { r.below(70) as usize };
+        let md = *r.pick(&[Mode::Reals, Mode::Special, Mode::Ints]);
+        let (a, b) = (vals(&mut r, n, md), vals(&mut r, n, md));
+        let s = val(&mut r, md);
+        let t = (it % 4) as usize;
+        let f = r.below(4) as usize;
+        // --- Vector op Vector / scalar forms
+        let inp = format!("op={} form={} a={} b={} scalar={:e}", OPN[t], f, json_floats(&a), json_floats(&b), s); crumb(&inp);
+        let want: Vec<f64> = (0..n).map(|i| sop(t, a[i], b[i])).collect();
+        check_pos(&mut out, &format!("vec-op-vec:{}", OPN[t]), &vec_vec(t, f, &a, &b), &want, &inp); tried += 1;
+        let want_vs: Vec<f64> = (0..n).map(|i| sop(t, a[i], s)).collect();
+        let want_sv: Vec<f64> = (0..n).map(|i| sop(t, s, a[i])).collect();
+        check_pos(&mut out, &format!("vec-op-scalar:{}", OPN[t]), &vec_scalar(t, f % 2, &a, s), &want_vs, &inp); tried += 1;
+        check_pos(&mut out, &format!("scalar-op-vec:{}", OPN[t]), &vec_scalar(t, 2 + f % 2, &a, s), &want_sv, &inp); tried += 1;
+        let mut w2 = want.clone(); if f % 2 == 1 { w2.extend_from_slice(&b); }
+        check_pos(&mut out, &format!("vec-assign-vec:{}", OPN[t]), &vec_vec_assign(t, f % 2, &a, &b), &w2, &inp); tried += 1;
+        check_pos(&mut out, &format!("vec-assign-scalar:{}", OPN[t]), &vec_scalar_assign(t, &a, s), &want_vs, &inp); tried += 1;
+        // borrowed operands unchanged
+        { let (x, y) = (Vector::new(a.clone()), Vector::new(b.clone()));
+          let _ = catch(|| { let _z: Vector = binop!(t, &x, &y); let _w: Vector = binop!(t, &x, s); let _u: Vector = binop!(t, s, &x); });
+          tried += 1;
+          if !same_vec(&x.v, &a) || !same_vec(&y.v, &b) { out.push(Finding { class: "operand-modified".into(), what: "a borrowed operand changed".into(), input: inp.clone() }); } }
+        // length mismatch must panic
+        if it % 3 == 0 {
+            let k = n + 1 + r.below(17) as usize; let b2 = vals(&mut r, k, Mode::Ints);
+            let (p, q) = if r.coin(0.5) { (&a, &b2) } else { (&b2, &a) };
+            let inp2 = format!("op={} a={} b={}", OPN[t], json_floats(p), json_floats(q)); crumb(&inp2);
+            tried += 2;
+            if let Ok(v) = vec_vec(t, f, p, q) { out.push(Finding { class: "vec-op-vec:length-mismatch-accepted".into(), what: format!("returned {} values for operands of lengths {} and {}", v.len(), p.len(), q.len()), input: inp2.clone() }); }
+            if let Ok(v) = vec_vec_assign(t, f % 2, p, q) { out.push(Finding { class: "vec-assign-vec:length-mismatch-accepted".into(), what: format!("returned {} values for operands of lengths {} and {}", v.len(), p.len(), q.len()), input: inp2.clone() }); }
+        }
+        // --- Matrix forms
+        if n >= 1 {
+            let sh = shapes_of(n); let (rr, cc) = *r.pick(&sh);
+            let (m1, m2) = (mk(rr, cc, &a), mk(rr, cc, &b));
+            let inpm = format!("op={} form={} shape={}x{} a={} b={} scalar={:e}", OPN[t], f, rr, cc, json_floats(&a), json_floats(&b), s); crumb(&inpm);
+            let shape = |w: &[f64]| { let mut o = vec![rr as f64, cc as f64]; o.extend_from_slice(w); o };
+            check_pos(&mut out, &format!("mat-op-mat:{}", OPN[t]), &mat_mat(t, f, &m1, &m2), &shape(&want), &inpm); tried += 1;
+            check_pos(&mut out, &format!("mat-op-scalar:{}", OPN[t]), &mat_scalar(t, f % 2, &m1, s), &shape(&want_vs), &inpm); tried += 1;
+            check_pos(&mut out, &format!("scalar-op-mat:{}", OPN[t]), &mat_scalar(t, 2 + f % 2, &m1, s), &shape(&want_sv), &inpm); tried += 1;
+            let mut w3 = shape(&want); if f % 2 == 1 { w3.extend(shape(&b)); }
+            check_pos(&mut out, &format!("mat-assign-mat:{}", OPN[t]), &mat_mat_assign(t, f % 2, &m1, &m2), &w3, &inpm); tried += 1;
+            check_pos(&mut out, &format!("mat-assign-scalar:{}", OPN[t]), &mat_scalar_assign(t, &m1, s), &shape(&want_vs), &inpm); tried += 1;
+            let neg: Vec<f64> = a.iter().map(|x| -x).collect();
+            let m = m1.clone();
+            check_pos(&mut out, "neg:matrix", &catch(move || mat_out(&(-m))), &shape(&neg), &inpm); tried += 1;
+            if rr != cc {
+                let m3 = mk(cc, rr, &b); tried += 1;
+                if let Ok(v) = mat_mat_assign(t, f % 2, &m1, &m3) { out.push(Finding { class: "mat-assign-mat:shape-mismatch-accepted".into(), what: format!("{}x{} op= {}x{} returned {:?}", rr, cc, cc, rr, &v[..2]), input: inpm.clone() }); }
+                if rr > 1 && cc > 1 { tried += 1; if let Ok(v) = mat_mat(t, f, &m1, &m3) { out.push(Finding { class: "mat-op-mat:shape-mismatch-accepted".into(), what: format!("{}x{} op {}x{} returned {:?}", rr, cc, cc, rr, &v[..2]), input: inpm.clone() }); } }
+            }
+            // maps on the Matrix keep the shape
+            let (name, _, mm, sm, mode, _) = maps[it % 29];
+            let am = vals(&mut r, n, if it % 5 == 0 { Mode::Special } else { mode });
+            let wantm: Vec<f64> = am.iter().map(|x| sm(*x)).collect();
+            let m = mk(rr, cc, &am);
+            let inpx = format!("map={} shape={}x{} a={}", name, rr, cc, json_floats(&am)); crumb(&inpx);
+            check_pos(&mut out, &format!("map:{}", name), &catch(|| mat_out(&mm(&m))), &shape(&wantm), &inpx); tried += 1;
+        }
+        let neg: Vec<f64> = a.iter().map(|x| -x).collect();
+        let x = Vector::new(a.clone());
+        check_pos(&mut out, "neg:vector", &catch(move || (-x).v), &neg, &inp); tried += 1;
+        // --- maps (kernel vs the scalar f64 method at each position)
+        { let (name, vm, _, sm, mode, _) = maps[(it / 2) % 29];
+          let am = vals(&mut r, n, if it % 4 == 0 { Mode::Special } else { mode });
+          let wantm: Vec<f64> = am.iter().map(|x| sm(*x)).collect();
+          let x = Vector::new(am.clone());
+          let inpx = format!("map={} a={}", name, json_floats(&am)); crumb(&inpx);
+          check_pos(&mut out, &format!("map:{}", name), &catch(|| vm(&x).v), &wantm, &inpx); tried += 1;
+          if !same_vec(&x.v, &am) { out.push(Finding { class: "operand-modified".into(), what: "a map changed its operand".into(), input: format!("map={} a={}", name, json_floats(&am)) }); } }
+        // --- powi / powf
+        { let e = *r.pick(&[-3, -2, -1, 0, 1, 2, 3, 4, 5, 2, 3, 11, -7]);
+          let ap = vals(&mut r, n, if it % 3 == 0 { Mode::Special } else { Mode::Reals });
+          let inpx = format!("powi exponent={} a={}", e, json_floats(&ap)); crumb(&inpx);
+          let wantp: Vec<f64> = ap.iter().map(|x| x.powi(e)).collect();
+          let x = Vector::new(ap.clone());
+          check_pos(&mut out, &format!("powi:{}", if e == 2 || e == 3 { e.to_string() } else { "other".into() }), &catch(move || x.powi(e).v), &wantp, &inpx); tried += 1;
+          let p = *r.pick(&[2.0, 3.0, 0.5, -1.25, 0.0]);
+          let inpx = format!("powf exponent={:e} a={}", p, json_floats(&ap)); crumb(&inpx);
+          let wantp: Vec<f64> = ap.iter().map(|x| x.powf(p)).collect();
+          let x = Vector::new(ap.clone());
+          check_pos(&mut out, "powf", &catch(move || x.powf(p).v), &wantp, &inpx); tried += 1; }
+        // --- reductions against compensated references, within the worst-case bound for the length
+        if n <= 3000 {
+            let ar = vals(&mut r, n, Mode::Reals); let br = vals(&mut r, n, Mode::Reals);
+            let u = f64::EPSILON; // 2^-52 = 2u: twice the unit roundoff, so (n+2)*EPSILON dominates gamma_n
+            let nn = n as f64 + 2.0;
+            let inp = format!("a={} b={}", json_floats(&ar), json_floats(&br)); crumb(&inp);
+            let (sref, sabs) = (dd_sum(ar.iter().copied()), ar.iter().map(|x| x.abs()).sum::<f64>());
+            let got = sum(&ar); tried += 1;
+            if (got - sref).abs() > nn * u * sabs { out.push(Finding { class: "sum:beyond-rounding-bound".into(), what: format!("sum = {:e}, exact sum = {:e}, bound {:e}", got, sref, nn * u * sabs), input: inp.clone() }); }
+            let (mut dh, mut dabs) = (vec![], 0.0);
+            for i in 0..n { let (p, e) = two_prod(ar[i], br[i]); dh.push(p); dh.push(e); dabs += p.abs(); }
+            let dref = dd_sum(dh.iter().copied());
+            let got = dot(&ar, &br); tried += 1;
+            if (got - dref).abs() > (nn + 1.0) * u * dabs { out.push(Finding { class: "dot:beyond-rounding-bound".into(), what: format!("dot = {:e}, exact = {:e}, bound {:e}", got, dref, (nn + 1.0) * u * dabs), input: inp.clone() }); }
+            let mut qh = vec![]; for i in 0..n { let (p, e) = two_prod(ar[i], ar[i]); qh.push(p); qh.push(e); }
+            let nref = dd_sum(qh.iter().copied()).sqrt();
+            let got = norm(&ar); tried += 1;
+            if (got - nref).abs() > (nn + 2.0) * u * nref { out.push(Finding { class: "norm:beyond-rounding-bound".into(), what: format!("norm = {:e}, reference = {:e}", got, nref), input: inp.clone() }); }
+            if n <= 60 {
+                let ap = vals(&mut r, n, Mode::Pos);
+                let lref = dd_sum(ap.iter().map(|x| x.ln()));
+                crumb(&format!("prod a={}", json_floats(&ap)));
+                let got = prod(&ap); tried += 1;
+                if (got.ln() - lref).abs() > (nn + 4.0) * u * (1.0 + ap.iter().map(|x| x.ln().abs()).sum::<f64>()) { out.push(Finding { class: "prod:beyond-rounding-bound".into(), what: format!("ln(prod) = {:e}, sum of ln = {:e}", got.ln(), lref), input: format!("a={}", json_floats(&ap)) }); }
+            }
+            if n >= 1 {
+                // log-sum-exp, including large-magnitude inputs (the naive formula would overflow / underflow)
+                let shift = *r.pick(&[0.0, 0.0, 700.0, -700.0, 1e4, -1e6, 1e300, -1e300]);
+                let al: Vec<f64> = ar.iter().map(|x| x * 3.0 + shift).collect();
+                let m = al.iter().cloned().fold(f64::NEG_INFINITY, f64::max);
+                let sref = dd_sum(al.iter().map(|x| (x - m).exp()));
+                let (lse, lme) = (sref.ln() + m, (sref / n as f64).ln() + m);
+                let tol = |w: f64| 4.0 * (nn + 8.0) * u * w.abs().max(1.0);
+                let inp = format!("x={}", json_floats(&al)); crumb(&inp);
+                let got = logsumexp(&al); tried += 1;
+                if !got.is_finite() { out.push(Finding { class: "logsumexp:overflow".into(), what: format!("logsumexp = {:e} for finite inputs (true value {:e})", got, lse), input: inp.clone() }); }
+                else if (got - lse).abs() > tol(lse) { out.push(Finding { class: "logsumexp:inaccurate".into(), what: format!("logsumexp = {:e}, reference {:e}", got, lse), input: inp.clone() }); }
+                let got = logmeanexp(&al); tried += 1;
+                if !got.is_finite() { out.push(Finding { class: "logmeanexp:overflow".into(), what: format!("logmeanexp = {:e} for finite inputs (true value {:e})", got, lme), input: inp.clone() }); }
+                else if (got - lme).abs() > tol(lme) { out.push(Finding { class: "logmeanexp:inaccurate".into(), what: format!("logmeanexp = {:e}, reference {:e}", got, lme), input: inp.clone() }); }
+                // infinity norms
+                let sh = shapes_of(n); let (rr, cc) = *r.pick(&sh);
+                let iref = (0..rr).map(|i| dd_sum((0..cc).map(|j| ar[i * cc + j].abs()))).fold(0.0, f64::max);
+                let inp = format!("shape={}x{} a={}", rr, cc, json_floats(&ar)); crumb(&inp);
+                let got = catch(|| inf_norm(&ar, rr)); tried += 1;
+                match got { Ok(g) => if (g - iref).abs() > (cc as f64 + 2.0) * u * iref { out.push(Finding { class: "inf_norm:wrong".into(), what: format!("inf_norm = {:e}, max row sum = {:e}", g, iref), input: inp.clone() }); },
+                            Err(e) => out.push(Finding { class: "inf_norm:panics".into(), what: e, input: inp.clone() }) }
+                let mm = mk(rr, cc, &ar);
+                let got = catch(|| mm.inf_norm()); tried += 1;
+                match got { Ok(g) => if (g - iref).abs() > (cc as f64 + 2.0) * u * iref { out.push(Finding { class: "Matrix::inf_norm:wrong".into(), what: format!("Matrix::inf_norm = {:e}, max row sum = {:e}", g, iref), input: inp.clone() }); },
+                            Err(e) => out.push(Finding { class: "Matrix::inf_norm:panics".into(), what: e, input: inp.clone() }) }
+                if n >= 2 { let bad = n + 1; tried += 1; if let Ok(g) = catch(|| inf_norm(&ar, bad)) { if n % bad != 0 { out.push(Finding { class: "inf_norm:nonmatrix-accepted".into(), what: format!("inf_norm returned {:e} for {} elements in {} rows", g, n, bad), input: inp.clone() }); } } }
+            }
+            tried += 1;
+            if let Ok(g) = catch(|| dot(&ar, &vals(&mut Rng::new(it as u64), n + 1, Mode::Ints))) { out.push(Finding { class: "dot:length-mismatch-accepted".into(), what: format!("dot returned {:e} for lengths {} and {}", g, n, n + 1), input: inp.clone() }); }
+        }
+        if out.len() > 40 { break; }
+    }
+    (tried, out)
+}
